@@ -121,6 +121,15 @@ def _leaves():
     return [N("s"), N("Select"), C(1)]
 
 
+def lam_default(body, default, kwonly=False):
+    """lambda x, n=<default>: <body>   or   lambda x, *, n=<default>: <body>  - the default expression is part of the query"""
+    if kwonly:
+        args = ast.arguments(posonlyargs=[], args=[ast.arg(arg="x")], kwonlyargs=[ast.arg(arg="n")], kw_defaults=[default], defaults=[])
+    else:
+        args = ast.arguments(posonlyargs=[], args=[ast.arg(arg="x"), ast.arg(arg="n")], kwonlyargs=[], kw_defaults=[], defaults=[default])
+    return ast.Lambda(args=args, body=body)
+
+
 def _builders():
     un = [lambda a: mcall(a, "First"), lambda a: mcall(a, "Count"), lambda a: mcall(a, "Foo"),
           lambda a: mcall(a, "first"), lambda a: fcall("First", a), lambda a: A(a, "Select"),
@@ -131,7 +140,8 @@ def _builders():
           lambda a, b: fcall("Select", a, b), lambda a, b: mcall(a, "SelectMany", lam("x", b)),
           lambda a, b: call(A(a, "Select"), [], [("k", b)]), lambda a, b: call(A(a, "Foo"), [], [("k", b)]),
           lambda a, b: gen.tup(a, b), lambda a, b: gen.sub(a, b), lambda a, b: call(a, [b]),
-          lambda a, b: gen.binop(ast.Add, a, b)]
+          lambda a, b: gen.binop(ast.Add, a, b),
+          lambda a, b: mcall(N("s"), "Select", lam_default(a, b)), lambda a, b: lam_default(a, b, True)]
     te = [lambda a, b, c: mcall(a, "Aggregate", b, c), lambda a, b, c: mcall(a, "Foo", b, c),
           lambda a, b, c: ast.IfExp(test=a, body=b, orelse=c),
           lambda a, b, c: call(A(a, "Select"), [b], [("k", c)])]
@@ -147,6 +157,8 @@ CORPUS = [
     "[j.pt for j in s.Where(lambda j: j.ok)]", "(lambda q: q.First())(s)", "s.Select(lambda x, /, y=1: y.Max())",
     "s.Min().Max().Sum()", "s.Aggregate(0, lambda a, v: a + v)", "s.Count", "Count(s.Count())",
     "{'a': s.First()}['a']", "s.First().First()", "x.First()[0].Select(lambda y: y)",
+    "s.Select(lambda e, n=s.Count(): e.Count() * n)", "s.Select(lambda j, *, lim=s.Select(lambda k: k.Max()).Min(): j.pt > lim)",
+    "Select(s, lambda e, n=t.First().Count(): n)", "(lambda x=s.Sum(): x)()",
 ]
 
 
